@@ -2,9 +2,10 @@ package main
 
 // C08 harness: one input line = one scenario (see lean/GPy/C08/Gen.lean)
 //
-//	<family> <n> <free> <seed>|<c>:<python>|<c>:<python>|...
+//	<family> <n> <free> <seed> <opts>|<c>:<python>|<c>:<python>|...
 //
-// n contexts are created; statement <c>:<python> runs in the __main__ module of context c, on the
+// n contexts are created, context i with the ContextOpts named by the i-th two-letter entry of <opts>
+// (SysArgs then SysPaths, each N = nil slice, E = empty slice, S = supplied; no <opts> = all SS); statement <c>:<python> runs in the __main__ module of context c, on the
 // goroutine that owns context c, in the order of the line (deterministic hand-over), each statement
 // compiled once per source text (so identical statements of different contexts share ONE *py.Code).
 // Every context gets the builtins o(v) / k() / ox(e) that append to that context's trace.
@@ -13,8 +14,9 @@ package main
 // R = the module.global slots that hold a writable object reachable from two contexts.
 //
 // After the scheduled run the Go object graph is walked by reflection from every context's module
-// store: a writable Python object (list, dict, set, module, heap type, instance, function, bound
-// method, exception, cell, generator, frame) reached from two contexts breaks `Disjoint`.  The
+// store AND from the Globals of every registered module implementation (the registry is reached by
+// linkname): a writable Python object (list, dict, set, module, heap type, instance, function, bound
+// method, exception, cell, generator, frame) reached from two contexts, or from a context and the registry, breaks `DisjointR`.  The
 // dictionaries of the built-in types and the Globals of the registered module implementations are
 // compared with a snapshot (and restored, so that one scenario cannot poison the next).
 // free = 1: the n programs additionally run freely on n goroutines (GOMAXPROCS 1/4/16, seeded
@@ -110,9 +112,45 @@ type c08Ctx struct {
 	trace []string
 }
 
-func c08NewCtx(id int) *c08Ctx {
+// c08Opts: the ContextOpts of context id.  opt = two letters, SysArgs then SysPaths, each
+// N (nil slice), E (empty, non-nil slice) or S (supplied: ['c8', '<id>'] / ['/p<id>']).
+func c08Opts(id int, opt string) py.ContextOpts {
+	if len(opt) != 2 {
+		opt = "SS"
+	}
+	var o py.ContextOpts
+	switch opt[0] {
+	case 'E':
+		o.SysArgs = []string{}
+	case 'S':
+		o.SysArgs = []string{"c8", strconv.Itoa(id)}
+	}
+	switch opt[1] {
+	case 'E':
+		o.SysPaths = []string{}
+	case 'S':
+		o.SysPaths = []string{"/p" + strconv.Itoa(id)}
+	}
+	return o
+}
+
+// c08OptOf: the opts letters of context i in a comma-separated list (missing: SS)
+func c08OptOf(opts []string, i int) string {
+	if i < len(opts) && len(opts[i]) == 2 {
+		return opts[i]
+	}
+	return "SS"
+}
+
+func c08NewCtx(id int, opt string) *c08Ctx {
 	c := &c08Ctx{id: id}
-	c.ctx = py.NewContext(py.ContextOpts{SysArgs: []string{"c8", strconv.Itoa(id)}, SysPaths: []string{"/p" + strconv.Itoa(id)}})
+	c.ctx = py.NewContext(c08Opts(id, opt))
+	c08Install(c)
+	return c
+}
+
+// c08Install: the observation builtins o / k / ox and the __main__ module of a context
+func c08Install(c *c08Ctx) {
 	bi := c.ctx.Store().Builtins.Globals
 	bi["o"] = py.MustNewMethod("o", func(self py.Object, args py.Tuple) (py.Object, error) {
 		c.trace = append(c.trace, c08Render(args[0]))
@@ -138,7 +176,6 @@ func c08NewCtx(id int) *c08Ctx {
 		panic(err)
 	}
 	c.main = m
-	return c
 }
 
 func (c *c08Ctx) run(code *py.Code) {
@@ -176,12 +213,30 @@ func c08Traces(cs []*c08Ctx) string {
 
 // ---------- process-wide state: snapshot / compare / restore ----------
 
-var c08ImplNames = []string{"builtins", "sys", "os", "math", "time", "string", "binascii", "array", "glob", "marshal", "tempfile", "c8a"}
+// the process-wide registry of module implementations (py.gRuntime is not exported and there is no
+// API to enumerate it: the variable is reached by linkname, so that EVERY registered implementation is
+// snapshot and walked, not a hand-written list of names)
+//
+//go:linkname c08Runtime github.com/go-python/gpython/py.gRuntime
+var c08Runtime py.Runtime
+
+func c08ImplNames() []string {
+	var out []string
+	for n := range c08Runtime.ModuleImpls {
+		// source-defined modules registered by C:sharedcode have no Globals
+		if !strings.HasPrefix(n, "c8src") {
+			out = append(out, n)
+		}
+	}
+	sort.Strings(out)
+	return out
+}
 
 type c08Snapshot struct {
 	typeDicts map[*py.Type]py.StringDict
 	implGlobs map[string]py.StringDict
-	environ   py.StringDict
+	implLists map[string][]py.Object    // "<impl>.<global>" -> items of a list held in an implementation's Globals
+	implDicts map[string]py.StringDict  // "<impl>.<global>" -> entries of a dict held in an implementation's Globals
 }
 
 var c08Snap *c08Snapshot
@@ -224,15 +279,19 @@ func c08Restore(dst, from py.StringDict) {
 // returns what had changed
 func c08CheckShared(types map[*py.Type]bool) (typeChanged, implChanged []string) {
 	if c08Snap == nil {
-		c08Snap = &c08Snapshot{typeDicts: map[*py.Type]py.StringDict{}, implGlobs: map[string]py.StringDict{}}
-		for _, n := range c08ImplNames {
+		c08Snap = &c08Snapshot{typeDicts: map[*py.Type]py.StringDict{}, implGlobs: map[string]py.StringDict{},
+			implLists: map[string][]py.Object{}, implDicts: map[string]py.StringDict{}}
+		for _, n := range c08ImplNames() {
 			if impl := py.GetModuleImpl(n); impl != nil {
 				c08Snap.implGlobs[n] = impl.Globals.Copy()
-			}
-		}
-		if impl := py.GetModuleImpl("os"); impl != nil {
-			if env, ok := impl.Globals["environ"].(py.StringDict); ok {
-				c08Snap.environ = env.Copy()
+				for k, v := range impl.Globals {
+					switch x := v.(type) {
+					case *py.List:
+						c08Snap.implLists[n+"."+k] = append([]py.Object{}, x.Items...)
+					case py.StringDict:
+						c08Snap.implDicts[n+"."+k] = x.Copy()
+					}
+				}
 			}
 		}
 	}
@@ -254,10 +313,28 @@ func c08CheckShared(types map[*py.Type]bool) (typeChanged, implChanged []string)
 			c08Restore(impl.Globals, was)
 		}
 	}
-	// the os.environ dict is one per process (known finding C08-K01): undo what the scenario did to it
-	if impl := py.GetModuleImpl("os"); impl != nil {
-		if env, ok := impl.Globals["environ"].(py.StringDict); ok && c08Snap.environ != nil {
-			c08Restore(env, c08Snap.environ)
+	// the CONTENTS of the lists and dicts held in implementation Globals (sys.path, sys.argv, os.environ):
+	// no context may change them (each module instance has its own copy)
+	for key, was := range c08Snap.implLists {
+		i := strings.IndexByte(key, '.')
+		if l, ok := py.GetModuleImpl(key[:i]).Globals[key[i+1:]].(*py.List); ok {
+			same := len(l.Items) == len(was)
+			for j := 0; same && j < len(was); j++ {
+				same = c08Ident(l.Items[j]) == c08Ident(was[j])
+			}
+			if !same {
+				implChanged = append(implChanged, key+"[]")
+				l.Items = append([]py.Object{}, was...)
+			}
+		}
+	}
+	for key, was := range c08Snap.implDicts {
+		i := strings.IndexByte(key, '.')
+		if d, ok := py.GetModuleImpl(key[:i]).Globals[key[i+1:]].(py.StringDict); ok {
+			if len(c08DictDiff(key, was, d)) > 0 {
+				implChanged = append(implChanged, key+"{}")
+				c08Restore(d, was)
+			}
 		}
 	}
 	sort.Strings(typeChanged)
@@ -424,16 +501,42 @@ func c08Walk(c *c08Ctx) *c08Walker {
 	return w
 }
 
-// c08Disjoint walks all contexts; returns the verdict, the canonical slots (R) and the access paths
+// c08WalkImpls walks from the Globals of EVERY registered module implementation (the process-wide
+// registry): what is reachable from there is reachable by every context that instantiates the module later
+func c08WalkImpls() *c08Walker {
+	w := &c08Walker{seen: map[c08Id]bool{}, mutable: map[c08Id]string{}, frozen: map[uintptr]bool{}, types: map[*py.Type]bool{}}
+	for _, n := range c08ImplNames() {
+		if impl := py.GetModuleImpl(n); impl != nil {
+			w.walk(reflect.ValueOf(impl.Globals), "impl:"+n, 0)
+		}
+	}
+	for id := range w.mutable {
+		if id.t == c08TSDict && w.frozen[id.p] {
+			delete(w.mutable, id)
+		}
+	}
+	return w
+}
+
+// c08Disjoint walks all contexts and the registry; a writable object reachable from two contexts, or
+// from a context and from an implementation's Globals, is shared.  Returns the verdict, the canonical
+// slots (R) and the access paths
 func c08Disjoint(cs []*c08Ctx) (verdict, slots string, paths []string, types map[*py.Type]bool) {
 	types = map[*py.Type]bool{}
-	ws := make([]*c08Walker, len(cs))
+	ws := make([]*c08Walker, len(cs)+1)
+	label := func(i int) string {
+		if i == len(cs) {
+			return "registry"
+		}
+		return fmt.Sprintf("ctx%d", i)
+	}
 	for i, c := range cs {
 		ws[i] = c08Walk(c)
 		for t := range ws[i].types {
 			types[t] = true
 		}
 	}
+	ws[len(cs)] = c08WalkImpls()
 	shared := map[c08Id][]string{}
 	for i, w := range ws {
 		for id, p := range w.mutable {
@@ -441,7 +544,7 @@ func c08Disjoint(cs []*c08Ctx) (verdict, slots string, paths []string, types map
 				if j != i {
 					if p2, ok := w2.mutable[id]; ok {
 						if _, done := shared[id]; !done {
-							shared[id] = []string{fmt.Sprintf("ctx%d:%s", i, p), fmt.Sprintf("ctx%d:%s", j, p2)}
+							shared[id] = []string{label(i) + ":" + p, label(j) + ":" + p2}
 						}
 						break
 					}
@@ -515,10 +618,10 @@ func c08Programs(n int, steps []c08Step) [][]string {
 }
 
 // c08Solo: every program in a fresh context, alone
-func c08Solo(progs [][]string, cache map[string]*py.Code) []string {
+func c08Solo(progs [][]string, cache map[string]*py.Code, opts []string) []string {
 	out := make([]string, len(progs))
 	for i, p := range progs {
-		c := c08NewCtx(i)
+		c := c08NewCtx(i, c08OptOf(opts, i))
 		for _, src := range p {
 			c.run(cache[src])
 		}
@@ -528,13 +631,13 @@ func c08Solo(progs [][]string, cache map[string]*py.Code) []string {
 	return out
 }
 
-func c08Free(progs [][]string, cache map[string]*py.Code, seed int64, gmp int) []string {
+func c08Free(progs [][]string, cache map[string]*py.Code, seed int64, gmp int, opts []string) []string {
 	old := runtime.GOMAXPROCS(gmp)
 	defer runtime.GOMAXPROCS(old)
 	n := len(progs)
 	cs := make([]*c08Ctx, n)
 	for i := range cs {
-		cs[i] = c08NewCtx(i)
+		cs[i] = c08NewCtx(i, c08OptOf(opts, i))
 	}
 	var wg sync.WaitGroup
 	start := make(chan struct{})
@@ -574,8 +677,13 @@ func c08Free(progs [][]string, cache map[string]*py.Code, seed int64, gmp int) [
 var c08BigPrograms = []string{
 	"def fib(n):\n    a, b = 0, 1\n    for i in range(n):\n        a, b = b, a + b\n    return a\nacc = []\nfor j in range(60):\n    acc.append(fib(j) % 1000)\no(len(acc))\no(acc[59])\n",
 	"class P:\n    def __init__(self, v):\n        self.v = v\n    def get(self):\n        return self.v\ndef gen(n):\n    for i in range(n):\n        yield P(i).get()\ntot = 0\nfor x in gen(300):\n    tot = tot + x\no(tot)\nd = {}\nfor i in range(100):\n    d[str(i)] = [i]\no(len(d))\n",
+	"import sys, os\nfor rep in range(40):\n    b = len(sys.path)\n    sys.path.append('/x')\n    n = len(sys.path) - b\n    sys.path.pop()\n    a = len(sys.argv)\n    sys.argv.append('y')\n    n = n * 10 + len(sys.argv) - a\n    sys.argv.pop()\n    os.environ['ZQ'] = '1'\n    n = n * 10 + len(os.environ)\n    del os.environ['ZQ']\n    if n != 111:\n        o(n)\no('done')\n",
 	"def mk(k):\n    def inner(x):\n        return x * k\n    return inner\nfs = [mk(i) for i in range(20)]\no(sum([f(3) for f in fs]))\ntry:\n    [][1]\nexcept IndexError as e:\n    ox(e)\nimport math\no(int(math.sqrt(1764)))\ns = 'abc' * 50\no(len(s.upper()))\n",
 }
+
+// c08COpt: the ContextOpts of context i in the family-C scenarios: two thirds of the contexts are
+// created WITHOUT SysArgs/SysPaths (empty or nil), as an embedder that passes py.ContextOpts{} does
+func c08COpt(i int) string { return []string{"EE", "NN", "SS", "NE", "SN"}[i%5] }
 
 func c08SharedCode(n int, seed int64) string {
 	var bad []string
@@ -586,7 +694,7 @@ func c08SharedCode(n int, seed int64) string {
 		imp := c08Compile(fmt.Sprintf("import c8src%d\no(c8src%d.val)\n", seed, seed))
 		cs := make([]*c08Ctx, n)
 		for i := range cs {
-			cs[i] = c08NewCtx(i)
+			cs[i] = c08NewCtx(i, c08COpt(i))
 		}
 		var wg sync.WaitGroup
 		for i := range cs {
@@ -606,7 +714,7 @@ func c08SharedCode(n int, seed int64) string {
 	}
 	for pi, src := range c08BigPrograms {
 		code := c08Compile(src)
-		solo := c08NewCtx(0)
+		solo := c08NewCtx(0, "SS")
 		solo.run(code)
 		want := strings.Join(solo.trace, ",")
 		solo.ctx.Close()
@@ -614,7 +722,7 @@ func c08SharedCode(n int, seed int64) string {
 			old := runtime.GOMAXPROCS(gmp)
 			cs := make([]*c08Ctx, n)
 			for i := range cs {
-				cs[i] = c08NewCtx(i)
+				cs[i] = c08NewCtx(i, c08COpt(i))
 			}
 			var wg sync.WaitGroup
 			for i := range cs {
@@ -638,6 +746,84 @@ func c08SharedCode(n int, seed int64) string {
 		}
 	}
 	if len(bad) > 0 {
+		return "DIFF:" + strings.Join(bad, " / ")
+	}
+	return "same"
+}
+
+// c08SrcFile: n contexts import the SAME source file (one directory on every context's sys.path), each
+// mutates the module's globals and the objects they hold (list, dict, class, through a function of the
+// module) and observes them: every context must see what it sees when it is the only one, sequentially
+// and on n goroutines at once, and the heap walk must find the contexts disjoint.
+func c08SrcFile(n int, seed int64) string {
+	dir, err := os.MkdirTemp("", "c8file")
+	if err != nil {
+		panic(err)
+	}
+	defer os.RemoveAll(dir)
+	mod := fmt.Sprintf("c8file%d", seed)
+	body := "val = 1\nlst = [1, 2]\ncfg = {'k': 1}\ndef get():\n    return lst\nclass K:\n    a = 1\n"
+	if err := os.WriteFile(dir+"/"+mod+".py", []byte(body), 0o644); err != nil {
+		panic(err)
+	}
+	prog := func(i int) string {
+		return fmt.Sprintf("import %s as m\nm.val = m.val + %d\nm.lst.append(%d)\nm.cfg['k'] = %d\nm.cfg['n%d'] = 1\nm.K.a = %d\nm.get().append(%d)\nm.extra%d = []\n"+
+			"o(m.val)\no(m.lst)\no(m.cfg)\no(m.K.a)\no(len(m.get()))\nimport sys\nsys.path.append('/x%d')\no(len(sys.path))\n", mod, i, i, i, i, i, i, i, i)
+	}
+	newCtx := func(i int) *c08Ctx {
+		c := &c08Ctx{id: i}
+		c.ctx = py.NewContext(py.ContextOpts{SysPaths: []string{dir}})
+		c08Install(c)
+		return c
+	}
+	codes := make([]*py.Code, n)
+	want := make([]string, n)
+	for i := 0; i < n; i++ {
+		codes[i] = c08Compile(prog(i))
+		solo := newCtx(i)
+		solo.run(codes[i])
+		want[i] = strings.Join(solo.trace, ",")
+		solo.ctx.Close()
+	}
+	var bad []string
+	for _, gmp := range []int{0, 1, 4, 16} { // 0 = one after the other
+		cs := make([]*c08Ctx, n)
+		for i := range cs {
+			cs[i] = newCtx(i)
+		}
+		if gmp == 0 {
+			for i := range cs {
+				cs[i].run(codes[i])
+			}
+		} else {
+			old := runtime.GOMAXPROCS(gmp)
+			var wg sync.WaitGroup
+			for i := range cs {
+				wg.Add(1)
+				go func(i int) {
+					defer wg.Done()
+					cs[i].run(codes[i])
+				}(i)
+			}
+			wg.Wait()
+			runtime.GOMAXPROCS(old)
+		}
+		for i, c := range cs {
+			if got := strings.Join(c.trace, ","); got != want[i] {
+				bad = append(bad, fmt.Sprintf("gmp%d ctx%d got [%s] want [%s]", gmp, i, got, want[i]))
+			}
+		}
+		if verdict, slots, paths, _ := c08Disjoint(cs); verdict != "disjoint" {
+			bad = append(bad, fmt.Sprintf("gmp%d walk=%s:%s %s", gmp, verdict, slots, strings.Join(paths, " ; ")))
+		}
+		for _, c := range cs {
+			c.ctx.Close()
+		}
+	}
+	if len(bad) > 0 {
+		if len(bad) > 6 {
+			bad = bad[:6]
+		}
 		return "DIFF:" + strings.Join(bad, " / ")
 	}
 	return "same"
@@ -700,11 +886,18 @@ func c08Case(line string) (string, string) {
 	n, _ := strconv.Atoi(head[1])
 	free := head[2] == "1"
 	seed, _ := strconv.ParseInt(head[3], 10, 64)
+	var opts []string
+	if len(head) >= 5 {
+		opts = strings.Split(head[4], ",")
+	}
 	if strings.HasPrefix(head[0], "C:sharedcode") {
 		return c08SharedCode(n, seed), ""
 	}
 	if strings.HasPrefix(head[0], "C:compile") {
 		return c08ConcCompile(n), ""
+	}
+	if strings.HasPrefix(head[0], "C:srcfile") {
+		return c08SrcFile(n, seed), ""
 	}
 	var steps []c08Step
 	cache := map[string]*py.Code{}
@@ -722,7 +915,7 @@ func c08Case(line string) (string, string) {
 	chans := make([]chan *py.Code, n)
 	done := make(chan struct{})
 	for i := range cs {
-		cs[i] = c08NewCtx(i)
+		cs[i] = c08NewCtx(i, c08OptOf(opts, i))
 		chans[i] = make(chan *py.Code)
 		go func(i int) {
 			for code := range chans[i] {
@@ -769,11 +962,11 @@ func c08Case(line string) (string, string) {
 	r := ""
 	if free {
 		progs := c08Programs(n, steps)
-		solo := c08Solo(progs, cache)
+		solo := c08Solo(progs, cache, opts)
 		var diffs []string
 		for _, gmp := range []int{1, 4, 16} {
 			for rep := int64(0); rep < 2; rep++ {
-				got := c08Free(progs, cache, seed*10+rep, gmp)
+				got := c08Free(progs, cache, seed*10+rep, gmp, opts)
 				for i := range got {
 					if got[i] != solo[i] {
 						diffs = append(diffs, fmt.Sprintf("ctx%d gmp%d rep%d got [%s] solo [%s]", i, gmp, rep, got[i], solo[i]))
@@ -796,8 +989,11 @@ func init() {
 			Methods: []*py.Method{py.MustNewMethod("f", func(self py.Object, args py.Tuple) (py.Object, error) {
 				return py.None, nil
 			}, 0, "")},
-			Globals: py.StringDict{"val": py.Int(7), "name": py.String("c8a"), "tup": py.Tuple{py.Int(1), py.Int(2)}},
+			Globals: py.StringDict{"val": py.Int(7), "name": py.String("c8a"), "tup": py.Tuple{py.Int(1), py.Int(2)},
+				"lst": py.NewListFromItems([]py.Object{py.Int(1), py.Int(2)}), "cfg": py.StringDict{"ck": py.Int(1)}},
 		})
+		// a SOURCE-defined registered module: its body runs in every context that imports it
+		py.RegisterModule(&py.ModuleImpl{Info: py.ModuleInfo{Name: "c8s"}, CodeSrc: "val = 41 + 1\nlst = [1, 2]\ncfg = {'ck': 1}\n"})
 		// the environment of the test process is not part of the scenario: os.environ starts empty
 		if impl := py.GetModuleImpl("os"); impl != nil {
 			if env, ok := impl.Globals["environ"].(py.StringDict); ok {
